@@ -200,7 +200,7 @@ func c16Templates() []c16Template {
 	}
 	var ts []c16Template
 	// T1: one key label
-	ts = append(ts, c16Template{id: "label", block: "res", markers: []string{"m_aws", "m_azure"},
+	ts = append(ts, c16Template{id: "label", block: "res", markers: []string{"m_aws", "m_azure", "m_amp", "m_nbsp"},
 		mk: func() *schema.BodySchema {
 			return refDecl(&schema.BodySchema{Blocks: map[string]*schema.BlockSchema{"res": {
 				Labels: []*schema.LabelSchema{{Name: "type", IsDepKey: true, Completable: true}, {Name: "name"}},
@@ -208,9 +208,14 @@ func c16Templates() []c16Template {
 				DependentBody: map[schema.SchemaKey]*schema.BodySchema{
 					depKey([]schema.LabelDependent{lbl(0, "aws")}, nil):   mkMarker("m_aws", true, nil),
 					depKey([]schema.LabelDependent{lbl(0, "azure")}, nil): mkMarker("m_azure", false, nil),
+					// key values holding characters JSON escapes or Go's %q considers non-printable
+					depKey([]schema.LabelDependent{lbl(0, "a&b<c>")}, nil):      mkMarker("m_amp", true, nil),
+					depKey([]schema.LabelDependent{lbl(0, "no\u00a0brk")}, nil): mkMarker("m_nbsp", false, nil),
 				}}}})
 		},
 		sels: []c16Sel{
+			{labels: []string{"a&b<c>", "n"}, marker: "m_amp", docs: true, keyLabels: []int{0}},
+			{labels: []string{"no\u00a0brk", "n"}, marker: "m_nbsp", keyLabels: []int{0}},
 			{labels: []string{"aws", "n"}, marker: "m_aws", docs: true, keyLabels: []int{0}},
 			{labels: []string{"azure", "n"}, marker: "m_azure", keyLabels: []int{0}},
 			{labels: []string{"none", "n"}, unknown: true},
